@@ -1275,13 +1275,14 @@ Example blind_demo_run :
 Proof. split; [vm_compute; reflexivity|vm_compute; reflexivity]. Qed.
 
 (* ---- the reducers over such pipelines: an expired context changes nothing ---- *)
-Lemma sreduce_loop_blind {A} (f : A -> Z -> A) : forall n acc s,
+Lemma sreduce_loop_blind {A} (f : A -> Z -> cbres A) : forall n acc s,
   sblind s -> sreduce_loop n false f acc s = sreduce_loop n true f acc s.
 Proof.
   induction n as [|n IH]; intros acc s HB; simpl; [reflexivity|].
   destruct (sstep_blind s HB) as [He Hb]. rewrite He.
   destruct (sstep true s) as [[o s1] ev1]. simpl in Hb.
-  destruct o; try reflexivity. rewrite (IH _ _ Hb). reflexivity.
+  destruct o; try reflexivity. destruct (f acc x); try reflexivity.
+  rewrite (IH _ _ Hb). reflexivity.
 Qed.
 
 Lemma slast_loop_blind n0 : forall k buf i s,
@@ -1310,7 +1311,7 @@ Proof.
   intros HB. destruct live; [reflexivity|].
   pose proof (proj1 sinit_blind p HB) as Hs.
   unfold run_stream_cfg, srun_reduce.
-  destruct r as [|n| | | |others]; try reflexivity.
+  destruct r as [|n| |fl| |others]; try reflexivity.
   - unfold scollect, sreduce. rewrite (sreduce_loop_blind _ _ _ _ Hs). reflexivity.
   - unfold slast. rewrite (sreduce_loop_blind _ _ _ _ Hs), (slast_loop_blind _ _ _ _ _ Hs).
     reflexivity.
